@@ -39,7 +39,7 @@ structure Boundary (sim : Sim) (s : State) : Prop where
   other : sim.ens ≠ .grand → Inv sim.ens s
 
 theorem GInv.ctxClean {sim : Sim} {s : State} (h : GInv sim s) : CtxClean s.ctx :=
-  ⟨h.invg.noAdded, h.invg.noDeleted, h.invg.noDeletedAtoms, h.delta0, h.invg.noSaved⟩
+  ⟨h.invg.noAdded, h.invg.noSizes, h.invg.noDeleted, h.invg.noDeletedAtoms, h.delta0, h.invg.noSaved⟩
 
 /-- **at a boundary `persist` changes dead fields only**: the restarted state and the running one agree on everything
     but `displaced_labels`, `_moving_indices`, `_added_atoms` (and, outside the grand-canonical driver, the exchange
@@ -86,7 +86,7 @@ theorem inv_persist {ens : Ensemble} {s : State} (h : Inv ens s) : Inv ens (pers
   ⟨h.lastPos, h.lastCell, h.lastMom, rfl, rfl⟩
 
 theorem ginv_persist {sim : Sim} {s : State} (h : GInv sim s) : GInv sim (persist s) := by
-  refine ⟨⟨h.invg.lastPos, rfl, rfl, rfl, rfl, h.invg.fixedOK⟩, rfl, ?_, h.templ⟩
+  refine ⟨⟨h.invg.lastPos, rfl, rfl, rfl, rfl, h.invg.fixedOK, rfl⟩, rfl, ?_, h.templ⟩
   intro r hr hlt hlb
   rw [obj_persist] at hlb ⊢
   have hlt' : r < s.heap.length := by simpa [persist] using hlt
